@@ -937,7 +937,7 @@ def edges(rng, case, idx):
                 quantum_rel = cf.q / tube.contents[lig]            # one stored digit of the ligand, relative
                 if quantum_rel > 0.2:
                     continue
-                lower, higher = now * (1 - 1.6 * quantum_rel), now * (1 + 1.6 * quantum_rel)
+                lower, higher = now * (1 - 0.8 * quantum_rel), now * (1 + 0.8 * quantum_rel)      # (more than the half digit one rounding hides, less than a whole one)
                 res, exc = attempt(lambda: tube.dilute(lig, f'{lower * 1e12:.6g} pmol/L', water))
                 if exc is None:
                     got = R.concentration(res.contents, lig, 'mol', 'L')
